@@ -76,8 +76,11 @@ def export(work, rgs, progs, variant, tag):
 def build_datasets(fp, pd, base, pool, cls):
     """-> list of datasets: dict(path, idx=[pool index per row group], rids=[[row ids] per row group])"""
     out = []
-    for stats, only in ((False, "both"), (True, "both"), (True, "x"), (True, "y")):
-        for part in (False, True):
+    import fastparquet.writer as W
+    for stats, only, tiny in ((False, "both", False), (True, "both", False), (True, "x", False), (True, "y", False),
+                              (True, "both", True)):
+      # tiny: a page budget of a few bytes - every row group is cut into one-row pages (the row filter works page by page)
+      for part in (False, True):
             idx = [i for i, g in enumerate(pool) if g["stats"] == stats and g.get("only", "both") == only
                    and ((g["p"] != NULL) == part)]
             if not idx:
@@ -91,7 +94,7 @@ def build_datasets(fp, pd, base, pool, cls):
                     ps.append(pool[i]["p"])
                     rid.append(i * 10 + r)
             df = pd.DataFrame({"rid": pd.Series(rid, dtype="int64"), "x": column(pd, cls, xs), "y": column(pd, "int", ys)})
-            path = os.path.join(base, "ds-%s-%d-%s-%d" % (cls, stats, only, part))
+            path = os.path.join(base, "ds-%s-%d-%s-%d-%d" % (cls, stats, only, part, tiny))
             stats_arg = stats if only == "both" else [only]
             pkind = cls.partition("|")[2]
             if part:
@@ -99,14 +102,21 @@ def build_datasets(fp, pd, base, pool, cls):
                     df["p"] = pd.Series([pconc(pkind, v) for v in ps], dtype=("str" if pkind.endswith("str") else object))
                 else:
                     df["p"] = pd.Series([pconc(pkind, v) for v in ps], dtype="int64")
-                fp.write(path, df, file_scheme="hive", partition_on=["p"], row_group_offsets=offs, stats=stats_arg,
-                         write_index=False)
-            else:
-                fp.write(path, df, file_scheme="hive", row_group_offsets=offs, stats=stats_arg, write_index=False)
+            old_page = W.MAX_PAGE_SIZE
+            try:
+                if tiny:
+                    W.MAX_PAGE_SIZE = 9
+                if part:
+                    fp.write(path, df, file_scheme="hive", partition_on=["p"], row_group_offsets=offs, stats=stats_arg,
+                             write_index=False)
+                else:
+                    fp.write(path, df, file_scheme="hive", row_group_offsets=offs, stats=stats_arg, write_index=False)
+            finally:
+                W.MAX_PAGE_SIZE = old_page
             pf = fp.ParquetFile(path)
             if len(pf.row_groups) != len(idx):
                 raise RuntimeError("dataset does not have one row group per pool element: %d vs %d" % (len(pf.row_groups), len(idx)))
-            out.append({"path": path, "idx": idx, "stats": stats, "only": only, "part": part})
+            out.append({"path": path, "idx": idx, "stats": stats, "only": only, "part": part, "pages": "one-row pages" if tiny else "one page"})
     return out
 
 
@@ -141,7 +151,7 @@ def eval_job(args):
             filters = real_filters(pg, cls)
             sig = {"ops": sorted({a["op"] for g in pg["groups"] for a in g}), "flat": pg["flat"],
                    "groups": len(pg["groups"]), "atoms": sum(len(g) for g in pg["groups"]),
-                   "partition_atom": mentions_p(pg), "class": cls, "stats": dsinfo["stats"], "stat_columns": dsinfo.get("only", "both")}
+                   "partition_atom": mentions_p(pg), "class": cls, "stats": dsinfo["stats"], "stat_columns": dsinfo.get("only", "both"), "pages": dsinfo.get("pages", "one page")}
             pf = fp.ParquetFile(dsinfo["path"])
             out["evals"] += 1
             try:
